@@ -55,6 +55,17 @@ type Step struct {
 	Threads  [][]Step `json:"threads,omitempty"`
 	PauseUs  int      `json:"pause_us,omitempty"`
 	Atomic   bool     `json:"atomic,omitempty"`
+	On       bool     `json:"on,omitempty"`
+	Model    *KModel  `json:"model,omitempty"`
+}
+
+// KModel is what the bounded model (spec/KqueueTables via MC_KqGen) predicts for the observation just made.
+type KModel struct {
+	NFd     int      `json:"nfd"`
+	NPath   int      `json:"npath"`
+	NByUser int      `json:"nbyuser"`
+	NSeen   int      `json:"nseen"`
+	WL      []string `json:"wl"`
 }
 
 type Scenario struct {
